@@ -404,15 +404,23 @@ theorem toListFuel_total : ∀ (fuel : Nat) (it : PolyThickPixels), PolyScanline
 
 end PolyThickPixels
 
+theorem polyPixelFuel_total (pl : Polyline) (w : Nat) : ∃ n, polyPixelFuel pl w = some n := by
+  obtain ⟨it, hit, hok⟩ := PolyScanlines.new_total pl w
+  obtain ⟨l, hl⟩ := PolyScanlines.toListFuel_total it.stepBudget it hok
+  have hl' : it.toList = some l := hl
+  unfold polyPixelFuel
+  simp only [hit, hl', Option.bind_eq_bind, Option.bind_some, pure]
+  exact ⟨_, rfl⟩
+
 /-- **`pixels()` of a stroked polyline is total** (every width, vertex list and `translate`). -/
 theorem pixels_total (pl : Polyline) (w : Nat) : ∃ ps, pixels pl w = some ps := by
   unfold pixels
   split
   · exact ⟨_, rfl⟩
   · exact ⟨_, rfl⟩
-  · obtain ⟨bb, hbb⟩ := untranslatedBoundingBox_total pl w
+  · obtain ⟨n, hn⟩ := polyPixelFuel_total pl w
     obtain ⟨it, hit, hok⟩ := PolyThickPixels.new_total pl w
-    simp only [hbb, hit, Option.bind_eq_bind, Option.bind_some]
+    simp only [hn, hit, Option.bind_eq_bind, Option.bind_some]
     exact PolyThickPixels.toListFuel_total _ it hok
 
 end Joins
